@@ -39,10 +39,27 @@ def prelude():
                   lambda: S.BBAN.from_components(cc, bank_code="1", account_code="2"), lambda: S.IBAN.from_bban(cc, "0" * spec["bban_length"]),
                   lambda: S.IBAN(cc + "00" + "0" * spec["bban_length"], allow_invalid=True).country, lambda: S.BBAN(cc, "12A4").validate_national_checksum()):
             observe(f)
+    for f in (lambda: S.IBAN.random("GB", random=Random(3), bank_code="LOYD"), lambda: S.IBAN.random("DE", random=Random(4), bank_code="37040044", account_code="0532013000"),
+              lambda: S.IBAN.random("PL", random=Random(5), branch_code="1234"), lambda: S.IBAN.generate("PL", "10100000", "1234567"),
+              lambda: S.IBAN.generate("GB", "NWBK601613", "31926819"), lambda: S.IBAN.generate("SI", "19100", "12345678"),
+              lambda: S.IBAN.random("MT", random=Random(6)), lambda: S.IBAN.random("KM", random=Random(6)), lambda: S.IBAN("KM4600005000010010904400137").bank_code,
+              lambda: S.IBAN("HN88CABF00000000000250005469").account_code):
+        observe(f)
     for f in (lambda: S.BIC.from_bank_code("DE", "37040044"), lambda: S.BIC.candidates_from_bank_code("FR", "30004"), lambda: S.BIC("GENODEM1GLS").country,
               lambda: S.BIC("ABCDXK22", allow_invalid=True).country, lambda: S.BIC("ABCDZZ22"), lambda: copy.deepcopy(S.IBAN("DE89370400440532013000")),
               lambda: S.IBAN("DE89370400440532013000", validate_bban=True).bic, lambda: S.IBAN("DE00370400440532013000"), lambda: S.IBAN.random(random=Random(2))):
         observe(f)
+
+
+def _judge_from_bban(mon, o, w2, table):
+    mon.ev()
+    mon.tally("from_bban_sloppy_arguments")
+    if o.ok:
+        e = R.expect_iban(str(o.value), table)
+        if e.verdict == R.REJECT:
+            mon.viol("from_bban_returned_invalid_iban", w2, sorted(e.defects), str(o.value))
+    elif not is_lib_exc(o.exc):
+        mon.viol(f"escape:from_bban:{o.exc_name}", w2, "library error", o.brief())
 
 
 def from_bban_sloppy_arguments(mon, cc, b0, table):
@@ -53,15 +70,25 @@ def from_bban_sloppy_arguments(mon, cc, b0, table):
                        (cc, " " + b0), (cc, b0.lower()), (cc[:1], cc[1:] + b0), ("", b0), (cc, ""), (cc + "00", b0[2:]), (cc, b0[:4] + " " + b0[4:])]:
         for kw in ({}, {"validate_bban": True}):
             o = observe(S.IBAN.from_bban, carg, barg, **kw)
-            mon.ev()
-            mon.tally("from_bban_sloppy_arguments")
-            w2 = {"country_arg": carg, "bban_arg": barg, "kw": kw}
-            if o.ok:
-                e = R.expect_iban(str(o.value), table)
-                if e.verdict == R.REJECT:
-                    mon.viol("from_bban_returned_invalid_iban", w2, sorted(e.defects), str(o.value))
-            elif not is_lib_exc(o.exc):
-                mon.viol(f"escape:from_bban:{o.exc_name}", w2, "library error", o.brief())
+            _judge_from_bban(mon, o, {"country_arg": carg, "bban_arg": barg, "kw": kw}, table)
+    import enum  # noqa: PLC0415
+
+    # BBAN objects that belong to another country (same length, other structure), and the country code as a
+    # member of a str-valued enum (a str whose format() differs from its value on 3.12)
+    same_len = [c for c in sorted(table) if c != cc and table[c]["bban_length"] == len(b0)]
+    from vf import gen as G_  # noqa: PLC0415
+
+    rng_ = env.rng("from_bban_foreign", cc)
+    for other in same_len[:3]:
+        ob = G_.random_bban(table[other], rng_, "letters")
+        o = observe(S.IBAN.from_bban, cc, S.BBAN(other, ob))
+        _judge_from_bban(mon, o, {"country_arg": cc, "bban_arg": f"BBAN({other!r}, {ob!r})"}, table)
+    Code = enum.Enum("Code", {cc: cc}, type=str) if cc.isalpha() and len(cc) == 2 else None
+    if Code is not None:
+        o = observe(S.IBAN.from_bban, Code[cc], b0)
+        mon.ev()
+        if not o.ok or str(o.value) != R.make_iban(cc, b0):
+            mon.viol("from_bban_country_code_as_str_enum_member", {"country_arg": f"<str-enum {cc}>", "bban_arg": b0}, R.make_iban(cc, b0), o.brief())
 
 
 def is_lib_exc(e) -> bool:
@@ -95,6 +122,65 @@ def iban_three_ways(text: str, validate_bban: bool = False):
 
 class _Text(str):
     """A plain str subclass: still 'a text'."""
+
+
+_SUBS: dict = {}
+
+
+def subclasses():
+    """User-style subclasses of the three classes: one that only adds a helper, and ones that change the
+    documented defaults through their own __init__ (the documented way to do so)."""
+    if not _SUBS:
+        S = lib()
+
+        class HelperIBAN(S.IBAN):
+            @property
+            def masked(self):
+                return str(self)[:4] + "*" * (len(self) - 4)
+
+        class StrictIBAN(S.IBAN):
+            def __init__(self, iban, allow_invalid=False):
+                super().__init__(iban, allow_invalid=allow_invalid, validate_bban=True)
+
+        class HelperBIC(S.BIC):
+            def short(self):
+                return str(self)[:8]
+
+        class SwiftBIC(S.BIC):
+            def __init__(self, bic, allow_invalid=False):
+                super().__init__(bic, allow_invalid=allow_invalid, enforce_swift_compliance=True)
+
+        class HelperBBAN(S.BBAN):
+            tag = "helper"
+
+        _SUBS.update(HelperIBAN=HelperIBAN, StrictIBAN=StrictIBAN, HelperBIC=HelperBIC, SwiftBIC=SwiftBIC, HelperBBAN=HelperBBAN)
+    return _SUBS
+
+
+def call_forms_agree(mon, kind, text, flag, o_ref, w):
+    """The same request made positionally (documented parameter order) or through a user subclass must get
+    the verdict of the keyword form.  kind: 'iban' (flag = validate_bban) or 'bic' (flag = enforce_swift_compliance)."""
+    S = lib()
+    sub = subclasses()
+    if kind == "iban":
+        # (the constructors themselves only take their flags as keywords on the unchanged tree - Base.__new__ -
+        # so positional constructor calls are not a documented form; validate() and from_bban() are)
+        forms = [("helper_subclass", lambda: sub["HelperIBAN"](text, validate_bban=flag)),
+                 ("positional_validate", lambda: S.IBAN(text, allow_invalid=True).validate(flag)),
+                 ("subclass_validate", lambda: sub["HelperIBAN"](text, allow_invalid=True).validate(validate_bban=flag))]
+        if flag:
+            forms.append(("strict_subclass", lambda: sub["StrictIBAN"](text)))
+        else:
+            forms.append(("subclass_is_valid", lambda: sub["HelperIBAN"](text, allow_invalid=True).is_valid or (_ for _ in ()).throw(ValueError("is_valid False"))))
+    else:
+        forms = [("helper_subclass", lambda: sub["HelperBIC"](text, enforce_swift_compliance=flag)),
+                 ("positional_validate", lambda: S.BIC(text, allow_invalid=True).validate(flag))]
+        if flag:
+            forms.append(("strict_subclass", lambda: sub["SwiftBIC"](text)))
+    for name, f in forms:
+        o = observe(f)
+        if o.ok != o_ref.ok:
+            mon.viol(f"{kind}:call_form_changes_verdict:{name}", w, o_ref.brief(), o.brief())
 
 
 def wrapped_inputs_agree(mon, ctor, o_ctor, o_unv, text, kw, w, tag):
@@ -157,6 +243,8 @@ def judge_iban_accept(mon: Mon, text: str, table, tag: str):
     else:
         mon.tally("lib_reject")
     wrapped_inputs_agree(mon, lib().IBAN, o_ctor, o_unv, text, {}, w, "iban")
+    if mon.evaluations % 7 == 0 or acc:
+        call_forms_agree(mon, "iban", text, False, o_ctor, w)
     # entry points must agree on accept / reject
     v_val = o_val.ok
     if v_val != acc:
@@ -185,6 +273,8 @@ def judge_iban_total(mon: Mon, text: str, table, tag: str, validate_bban: bool =
     if not o_isv.ok:
         mon.viol(f"is_valid_raised:{o_isv.exc_name}", w, "True/False", o_isv.brief())
     wrapped_inputs_agree(mon, lib().IBAN, o_ctor, o_unv, text, {"validate_bban": True} if validate_bban else {}, w, "iban")
+    if mon.evaluations % 5 == 0 or o_ctor.ok:
+        call_forms_agree(mon, "iban", text, bool(validate_bban), o_ctor, w)
     # ctor (with flag) <=> validate (with flag); ctor without flag <=> is_valid
     if o_ctor.ok != o_val.ok:
         mon.viol("ctor_vs_validate_disagree", w, o_ctor.brief(), o_val.brief())
@@ -247,6 +337,8 @@ def judge_bic(mon: Mon, text: str, strict: bool, tag: str, prop_mode: str = "acc
     mon.tally(f"oracle_{exp.verdict}")
     mon.tally("lib_accept" if acc else "lib_reject")
     wrapped_inputs_agree(mon, lib().BIC, o_ctor, o_unv, text, {"enforce_swift_compliance": True} if strict else {}, w, "bic")
+    if mon.evaluations % 5 == 0 or acc:
+        call_forms_agree(mon, "bic", text, bool(strict), o_ctor, w)
     if prop_mode == "accept":
         if exp.verdict != R.DONT_CARE:
             mon.distinct(("bic", exp.norm, strict))
